@@ -292,7 +292,7 @@ func oracleC13(op string, a []string) string {
 			rt = models.RestrictionType_ALLOWED_AREAS
 		}
 		w := nasConvert.PartialServiceAreaListToNas(models.PlmnId{Mcc: string(mcc), Mnc: string(mnc)},
-			models.ServiceAreaRestriction{RestrictionType: rt, Areas: areas})
+			junkRestriction(models.ServiceAreaRestriction{RestrictionType: rt, Areas: areas}, len(a[3])))
 		if len(w) < 1 {
 			return "FAIL empty service area list"
 		}
